@@ -172,14 +172,18 @@ def env():
     return _ENV
 
 
-def build(kind, seed, calc="auto", logfile=None, size=1):
-    """one simulation of the given kind on a small rattled Cu cell; returns the driver (atoms at .atoms)"""
+def build(kind, seed, calc="auto", logfile=None, size=1, sibling=False):
+    """one simulation of the given kind on a small rattled Cu cell; returns the driver (atoms at .atoms). `sibling`: the
+    same class, symbols, temperature and settings, but other masses (an isotope) for the atoms and the exchange species — a
+    second simulation that anything memoised per (symbols, temperature, class) would confuse with the first"""
     E = env()
     np = E["np"]
     a = E["bulk"]("Cu", cubic=True)
     if size > 1:
         a = a * (size, 1, 1)
     a.rattle(0.05, seed=3)
+    if sibling:
+        a.set_masses(a.get_masses() * 1.37)
     exchange = kind in ("gc", "gcmol")
     if calc == "auto":
         # EMT's neighbour list does not follow a changing number of atoms through quansino's state restoration
@@ -210,14 +214,21 @@ def build(kind, seed, calc="auto", logfile=None, size=1):
         mc.moves["default_cell_move"].probability = 0.5
         mc.moves["default_displacement_move"].probability = 0.5
     elif kind == "gc":
-        mc = E["GrandCanonical"](a, E["Atoms"]("Cu"), temperature=4000.0, chemical_potential=0.3, max_cycles=3,
+        species = E["Atoms"]("Cu")
+        if sibling:
+            species.set_masses(species.get_masses() * 1.37)
+        # chemical potentials at which insertions AND deletions are accepted with intermediate probability (at 0.3 eV every
+        # trial was accepted: a criteria that miscounts by a factor 1.6 changed no decision)
+        mc = E["GrandCanonical"](a, species, temperature=4000.0, chemical_potential=-4.0, max_cycles=3,
                                  number_of_exchange_particles=n,
                                  default_exchange_move=E["ExchangeMove"](np.arange(n), E["Translation"]()),
                                  default_displacement_move=E["DisplacementMove"](np.arange(n)), **kw)
         mc.moves["default_displacement_move"].minimum_count = 1
     elif kind == "gcmol":
         h2 = E["Atoms"]("H2", positions=[[0, 0, 0], [0, 0, 0.74]])
-        mc = E["GrandCanonical"](a, h2, temperature=4000.0, chemical_potential=0.3, max_cycles=3,
+        if sibling:
+            h2.set_masses([2.014, 2.014])
+        mc = E["GrandCanonical"](a, h2, temperature=4000.0, chemical_potential=-2.0, max_cycles=3,
                                  number_of_exchange_particles=0,
                                  default_exchange_move=E["ExchangeMove"](np.full(n, -1), E["TranslationRotation"]()),
                                  default_displacement_move=E["DisplacementMove"](np.arange(n)), **kw)
@@ -287,12 +298,12 @@ def one_run(kind, seed, steps, gseed=None, pseed=None, orig=None, wrap_rng=False
         # other simulations live in the same process: one object of every OTHER driver class is built (and takes a step)
         # before this one; nothing they do may reach it (class-level dictionaries, module-level caches, shared defaults)
         for other in KINDS:
-            if other != kind:
-                try:
-                    o = build(other, (seed + 1) % 2**63, calc=calc, logfile=io.StringIO(), size=1)
-                    o.run(1)
-                except Exception:  # noqa: BLE001  (a decoy that cannot be built says nothing about this run)
-                    pass
+            try:
+                # (of the run's own class: a sibling with other masses, same symbols and temperature)
+                o = build(other, (seed + 1) % 2**63, calc=calc, logfile=io.StringIO(), size=1, sibling=(other == kind))
+                o.run(2 if other == kind else 1)
+            except Exception:  # noqa: BLE001  (a decoy that cannot be built says nothing about this run)
+                pass
         orig["np.seed"](gseed[0])
         orig["py.seed"](gseed[1])
     mc = build(kind, seed, calc=calc, logfile=log, size=size)
@@ -551,6 +562,10 @@ class SeedKept(common.Suite):
         for cls in self.classes:
             for s in seeds:
                 yield {"cls": cls, "seed": s}
+            # the same integers as numpy integer scalars (`for seed in np.arange(3)`, `rng.integers(...)`): integers all the same
+            for s in [0, 1, 42, rng.randrange(2**63)]:
+                yield {"cls": cls, "seed": s, "as": "np.int64"}
+            yield {"cls": cls, "seed": rng.randrange(2**63, 2**64), "as": "np.uint64"}
 
     def construct(self, cls, seed):
         E = env()
@@ -586,7 +601,10 @@ class SeedKept(common.Suite):
         out = {}
         qd.PCG64 = stub
         try:
-            mc = self.construct(case["cls"], case["seed"])
+            given = case["seed"]
+            if case.get("as"):
+                given = getattr(E["np"], case["as"].split(".")[1])(given)
+            mc = self.construct(case["cls"], given)
             out["seed"] = int(common.get_seed(mc))
             out["is_int"] = isinstance(common.get_seed(mc), int) and not isinstance(common.get_seed(mc), bool)
             want = real_pcg(case["seed"] if case["seed"] is not None else SENTINEL).state
@@ -650,7 +668,7 @@ class SeedKept(common.Suite):
     def classify(self, case, obs):
         s = case["seed"]
         k = "none" if s is None else "zero" if s == 0 else ">=2^64" if s >= 2**64 else "special" if s in SPECIAL_SEEDS else "random"
-        return f"{case['cls']}:{k}"
+        return f"{case['cls']}:{k}{':' + case['as'] if case.get('as') else ''}"
 
 
 # --------------------------------------------------------------------------------------------- suite 2
@@ -1051,9 +1069,8 @@ def _fresh_job(args):
 
     if decoys:
         for other in KINDS:
-            if other != kind:
-                o = build(other, (seed + 1) % 2**63, logfile=_io.StringIO())
-                o.run(1)
+            o = build(other, (seed + 1) % 2**63, logfile=_io.StringIO(), sibling=(other == kind))
+            o.run(2 if other == kind else 1)
     r = one_run(kind, seed, steps)
     return {k: r.get(k) for k in OBSERVABLES}
 
@@ -1075,7 +1092,7 @@ class FreshProcess(common.Suite):
         from concurrent.futures import ProcessPoolExecutor
 
         jobs = [(c["kind"], c["seed"], c["steps"], d) for c in self._cases for d in (False, True)]
-        with ProcessPoolExecutor(max_workers=min(8, len(jobs)), mp_context=mp.get_context("spawn")) as ex:
+        with ProcessPoolExecutor(max_workers=min(8, len(jobs)), mp_context=mp.get_context("spawn"), max_tasks_per_child=1) as ex:
             res = list(ex.map(_fresh_job, jobs))
         self._results = {(j[0], j[3]): r for j, r in zip(jobs, res)}
 
